@@ -270,25 +270,9 @@ func literalFields(fn *ssa.Function, typeName string) map[string]string {
 		}
 		if ok {
 			out[fieldName(n, fa.Field)] = exprStr(st.Val)
-			// ds.Range{Start: a, End: b} written out instead of *ds.NewRange(a, b)
-			if u, ok := st.Val.(*ssa.UnOp); ok && u.Op == token.MUL {
-				if lit, ok := u.X.(*ssa.Alloc); ok {
-					if rn, ok := deref(lit.Type()).(*types.Named); ok && rn.Obj().Name() == "Range" {
-						parts := map[string]string{}
-						for _, ref := range *lit.Referrers() {
-							if f2, ok := ref.(*ssa.FieldAddr); ok {
-								for _, r2 := range *f2.Referrers() {
-									if s2, ok := r2.(*ssa.Store); ok && s2.Addr == ssa.Value(f2) {
-										parts[fieldName(rn, f2.Field)] = exprStr(s2.Val)
-									}
-								}
-							}
-						}
-						if parts["Start"] != "" && parts["End"] != "" {
-							out[fieldName(n, fa.Field)] = "NewRange(" + parts["Start"] + ", " + parts["End"] + ")"
-						}
-					}
-				}
+			// a Range, however it is made (*ds.NewRange(a, b), ds.Range{Start: a, End: b}, a by-value constructor): name its two parts
+			if a, b, ok := rangeParts(st.Val, 0); ok {
+				out[fieldName(n, fa.Field)] = "NewRange(" + exprStr(a) + ", " + exprStr(b) + ")"
 			}
 		}
 	})
@@ -343,6 +327,7 @@ func isParamName(fn *ssa.Function, s string) bool {
 // C05
 
 func ruleReplacementAccumulates(c *Ctx, rule string) {
+	defer withForwarders()()
 	r := c.R
 	rsT := c.NamedType("engine", "ReplacerState")
 	if rsT == nil {
@@ -366,8 +351,66 @@ func ruleReplacementAccumulates(c *Ctx, rule string) {
 			prefix := "Some((" + s + ".GetValueOrDefault(\"\") + "
 			if strings.HasPrefix(v, prefix) && strings.HasSuffix(v, "))") {
 				ob.OKnt("Replacement = " + v)
-			} else {
+				return
+			}
+			// a witness is needed: the previous text is not used at all, or it is not the left end of the concatenation
+			prev := s + ".GetValueOrDefault(\"\")"
+			usesPrev, opaque := false, false
+			seen := map[ssa.Value]bool{}
+			var walk func(x ssa.Value, d int)
+			walk = func(x ssa.Value, d int) {
+				if x == nil || seen[x] || d > 20 {
+					return
+				}
+				seen[x] = true
+				if strings.HasSuffix(exprStr(x), ".match.Replacement") {
+					usesPrev = true
+					return
+				}
+				switch y := x.(type) {
+				case *ssa.MakeClosure, *ssa.Function:
+					opaque = true
+					return
+				case *ssa.Phi:
+					for _, e := range y.Edges {
+						walk(e, d+1)
+					}
+					return
+				case *ssa.Call:
+					if sc := y.Call.StaticCallee(); sc == nil {
+						opaque = true
+					}
+				}
+				if in, ok := x.(ssa.Instruction); ok {
+					for _, op := range in.Operands(nil) {
+						if *op != nil {
+							walk(*op, d+1)
+						}
+					}
+				}
+			}
+			walk(st.Val, 0)
+			leftmost := ""
+			if call, ok := st.Val.(*ssa.Call); ok && len(call.Call.Args) == 1 && strings.HasPrefix(v, "Some(") {
+				a := call.Call.Args[0]
+				for {
+					b, ok := a.(*ssa.BinOp)
+					if !ok || b.Op != token.ADD {
+						break
+					}
+					a = b.X
+				}
+				leftmost = exprStr(a)
+			}
+			switch {
+			case opaque || (usesPrev && leftmost == ""):
+				ob.Und("Replacement = " + v + ": the new text is computed from the previous one in a form this rule cannot read (a helper, a closure)")
+			case !usesPrev:
 				ob.Bad("Replacement is overwritten with " + v + " instead of Some(previous + item): earlier `with` items are lost")
+			case leftmost != prev:
+				ob.Bad("Replacement becomes " + v + ": the previous text is not the left end of the new one, so the `with` items come out in the wrong order")
+			default:
+				ob.Und("Replacement = " + v + ": not of the form Some(previous + item)")
 			}
 		})
 	}
@@ -731,7 +774,7 @@ func ruleItemKinds(c *Ctx, rule string) {
 	}
 	ob2.Pos = c.pos(wv.Pos())
 	cds := NewPostDom(wv).ControlDeps()
-	var conds []string
+	var conds, opaque []string
 	n := 0
 	writers := c.fieldWriters("Match")["Replacement"]
 	instrsOf(wv, func(in ssa.Instruction) {
@@ -749,12 +792,38 @@ func ruleItemKinds(c *Ctx, rule string) {
 			n++
 			for _, l := range condsOf(cds, in.Block()) {
 				conds = append(conds, l.String())
+				// a test made by a helper of the repository (rs.textOf(name)) is not read here
+				seen := map[ssa.Value]bool{}
+				var walk func(v ssa.Value, d int)
+				walk = func(v ssa.Value, d int) {
+					if v == nil || seen[v] || d > 12 {
+						return
+					}
+					seen[v] = true
+					if call, ok := v.(*ssa.Call); ok {
+						if sc := call.Call.StaticCallee(); sc != nil && c.isRepoFn(sc) && sc.Name() != "Get" && sc.Name() != "getType" {
+							opaque = append(opaque, fnName(sc))
+						}
+					}
+					if x, ok := v.(ssa.Instruction); ok {
+						for _, op := range x.Operands(nil) {
+							if *op != nil {
+								walk(*op, d+1)
+							}
+						}
+					}
+				}
+				walk(l.Cond, 0)
 			}
 		}
 	})
 	sort.Strings(conds)
 	got := strings.Join(uniq(conds), " && ")
 	want := "(rs.variables.Get(name)#0.getType() == 0) && rs.variables.Get(name)#1"
+	if (n != 1 || got != want) && len(opaque) > 0 {
+		ob2.Und("the append is guarded by [" + got + "], a test made in " + strings.Join(uniq(opaque), ", ") + " that this rule does not read")
+		return
+	}
 	ob2.Check(n == 1 && got == want, "one append under ["+got+"]", fmt.Sprintf("%d append(s) to the replacement under [%s]; expected one under [%s] (found && string-typed)", n, got, want))
 	ob2.Nontrivial = true
 }
@@ -1241,4 +1310,81 @@ func ruleTransformBoundAtCompileTime(c *Ctx, rule string) {
 	default:
 		ob.OKnt(fmt.Sprintf("%d executeStatement call(s) under executeReplace, each on an element of the statement list inside the ReplaceProcess instruction", found))
 	}
+}
+
+// rangeParts names the two values a ds.Range (or *ds.Range) value is made from, seen through composite literals, copies and
+// the constructor functions (a callee whose single return is itself such a value made from its parameters).
+func rangeParts(v ssa.Value, depth int) (ssa.Value, ssa.Value, bool) {
+	if depth > 4 || v == nil {
+		return nil, nil, false
+	}
+	if n, ok := deref(v.Type()).(*types.Named); !ok || n.Obj().Name() != "Range" {
+		return nil, nil, false
+	}
+	switch x := v.(type) {
+	case *ssa.UnOp:
+		if x.Op == token.MUL {
+			return rangeParts(x.X, depth)
+		}
+	case *ssa.Alloc:
+		var s, e, whole []ssa.Value
+		for _, ref := range *x.Referrers() {
+			switch y := ref.(type) {
+			case *ssa.FieldAddr:
+				for _, r2 := range *y.Referrers() {
+					if st, ok := r2.(*ssa.Store); ok && st.Addr == ssa.Value(y) {
+						switch fieldName(deref(x.Type()), y.Field) {
+						case "Start":
+							s = append(s, st.Val)
+						case "End":
+							e = append(e, st.Val)
+						}
+					}
+				}
+			case *ssa.Store:
+				if y.Addr == ssa.Value(x) {
+					whole = append(whole, y.Val)
+				}
+			}
+		}
+		if len(whole) == 1 && len(s) == 0 && len(e) == 0 {
+			return rangeParts(whole[0], depth+1)
+		}
+		if len(whole) == 0 && len(s) == 1 && len(e) == 1 {
+			return s[0], e[0], true
+		}
+	case *ssa.Call:
+		sc := x.Call.StaticCallee()
+		if sc == nil || len(sc.Blocks) == 0 || x.Call.IsInvoke() {
+			return nil, nil, false
+		}
+		var rets []*ssa.Return
+		instrsOf(sc, func(in ssa.Instruction) {
+			if ret, ok := in.(*ssa.Return); ok {
+				rets = append(rets, ret)
+			}
+		})
+		if len(rets) != 1 || len(rets[0].Results) != 1 {
+			return nil, nil, false
+		}
+		a, b, ok := rangeParts(rets[0].Results[0], depth+1)
+		if !ok {
+			return nil, nil, false
+		}
+		back := func(v ssa.Value) ssa.Value {
+			if _, isConst := v.(*ssa.Const); isConst {
+				return v
+			}
+			for i, p := range sc.Params {
+				if v == ssa.Value(p) && i < len(x.Call.Args) {
+					return x.Call.Args[i]
+				}
+			}
+			return nil
+		}
+		if a, b = back(a), back(b); a != nil && b != nil {
+			return a, b, true
+		}
+	}
+	return nil, nil, false
 }
